@@ -13,7 +13,7 @@ claimed = {
    note="Keys and digests are whatever the seeded workload draws (boundary-biased) - sampling, not enumeration over all d and digests. The x(R) >= n bit of the recovery id is unreachable for an honest signer (2^-128) and is not exercised."),
  "C14": dict(cat="exploration", ref="DESIGN.md section 4 (C14)",
    technique="deterministic simulation of the aux-randomness reader seam with fault injection; every signing event compared byte-for-byte with an independent BIP-340 model",
-   text="Entropy-source clause: every successful Schnorr Sign under every simulated aux-randomness device equals the BIP-340 reference signature on the 32 bytes actually delivered, verifies in model and library, consumes exactly 32 bytes, aborts on a read error before byte 32, never fails on a healthy device; Schnorr keys derived from ECDSA keys expose the even-y point, its x and the raw scalar. Key-derivation clause: in pool-world call histories every Schnorr key built from a byte string, an ECDSA key object or a pool point (after arbitrary arithmetic histories and re-randomised projective representatives, odd and even y) must expose the model's even-y point, its x coordinate and - sampled - produce the BIP-340 reference signature; Sign is called with every kind of opts value (documented as ignored) and messages of 0..200 bytes, at SHA-256 block boundaries and around 1..8 KiB, the empty message as nil and as an empty slice, a strictly shorter message after a longer one with the same key; aux bytes written by a helper goroutine while the signer's stack moves, aux equal to the key encoding, its negation or the message, readers of standard-library types; garbage collections as a tape-decided step; readers that panic; a few histories in a GOARCH=386 build and in a build made with go1.26.8. Stall world (as for C09, Schnorr signer): an aux-randomness reader that blocks under a simulated clock must be waited for or failed with, never skipped. Key objects come and go while the keys stay (an operation of the history: passers-by imported, used once and dropped; every key signs one (digest, entropy) pair; all key objects are dropped and collected and the keys imported again from their bytes in a tape-chosen rotation; the same pair signed again must give the same signatures); one signing call in six is made on a key object imported for that call alone (the caller holds no reference while the library works); one device in ten runs one or two complete garbage collections, finalizers included, inside its first Read, and one in ten signs with a bystander key inside its first Read (a reader that calls back into the library).",
+   text="Entropy-source clause: every successful Schnorr Sign under every simulated aux-randomness device equals the BIP-340 reference signature on the 32 bytes actually delivered, verifies in model and library, consumes exactly 32 bytes, aborts on a read error before byte 32, never fails on a healthy device; Schnorr keys derived from ECDSA keys expose the even-y point, its x and the raw scalar. Key-derivation clause: in pool-world call histories every Schnorr key built from a byte string, an ECDSA key object or a pool point (after arbitrary arithmetic histories and re-randomised projective representatives, odd and even y) must expose the model's even-y point, its x coordinate and - sampled - produce the BIP-340 reference signature; Sign is called with every kind of opts value (documented as ignored) and messages of 0..200 bytes, at SHA-256 block boundaries and around 1..8 KiB, the empty message as nil and as an empty slice, a strictly shorter message after a longer one with the same key; aux bytes written by a helper goroutine while the signer's stack moves, aux equal to the key encoding, its negation or the message, readers of standard-library types; garbage collections as a tape-decided step; readers that panic; a few histories in a GOARCH=386 build and in a build made with go1.26.8. Stall world (as for C09, Schnorr signer): an aux-randomness reader that blocks under a simulated clock must be waited for or failed with, never skipped. Key objects come and go while the keys stay (an operation of the history: passers-by imported, used once and dropped; every key signs one (digest, entropy) pair; all key objects are dropped and collected and the keys imported again from their bytes in a tape-chosen rotation; the same pair signed again must give the same signatures); one signing call in six is made on a key object imported for that call alone (the caller holds no reference while the library works); one device in ten runs one or two complete garbage collections, finalizers included, inside its first Read, and one in ten signs with a bystander key inside its first Read (a reader that calls back into the library). Half of the Schnorr signing keys are imported from a caller's buffer (the others derived from the ECDSA key object); the caller overwrites that buffer and what the key's accessors handed out later in the history, and the next BIP-340 signature must still be the model's.",
    note="Key parity x nonce parity x message length are sampled (probes count them), not enumerated."),
 }
 
